@@ -36,7 +36,8 @@ class Batch:
         self.items.append(("corr", stream, inp, line, real, None))
 
     def ref(self, stream, inp, line, real, what):
-        """oracle: real result vs the standard as computed by the Lean reference primitive"""
+        """oracle: real result vs the standard as computed by a Spec-only Lean reference op (Crypto/*.lean; never a `w_*` model op)"""
+        assert line.split(" ", 1)[0] in stream.ck.spec_ops, "oracle expectations may only come from Spec-only driver ops"
         self.items.append(("ref", stream, inp, line, real, what))
 
     def flush(self):
@@ -74,6 +75,11 @@ def run(ck):
     from spsdk.sbfile.sb31 import functions as sb31
     from spsdk.utils.misc import Endianness
 
+    # Driver ops that evaluate ONLY Crypto/*.lean over `execOps` (Driver/C09.lean `stepRef`): the standards' reference, independent of /repo,
+    # of Generated/ and of Model/.  Oracle expectations (`B.ref`) use these ops only; every `w_*` op (wrapper model, generated tables) feeds
+    # `s.compare` only.  (VERIF_FAULT=badmodel keeps exactly these answers intact.)
+    ck.spec_ops = {"hash", "aes_enc", "aes_dec", "sm4_enc", "sm4_dec", "ecb_enc", "ecb_dec", "cbc_enc", "cbc_dec", "sm4cbc_enc", "sm4cbc_dec",
+                   "ctr", "xts_enc", "xts_dec", "ccm_enc", "ccm_dec", "kw_wrap", "kw_unwrap", "cmac", "hmac", "hkdf", "crc"}
     ck.lean_obligations(generated=["CrcTable", "SymConsts", "Sb31Kdf"])
     drv = ck.driver()
     ck.assume(
